@@ -88,6 +88,11 @@ theorem nibblesOfHex_upper (ns : List Nat) (h : ∀ n ∈ ns, n < 16) :
     simp only [List.map_cons, nibblesOfHex, charNibble_nibbleCharUpper n (h n (by simp)),
       ih (fun x hx => h x (by simp [hx]))]
 
+theorem upperHex_ascii (c : Char) (h : isUpperHex c = true) : isAscii c = true := by
+  simp only [isUpperHex, Bool.or_eq_true, Bool.and_eq_true, decide_eq_true_eq] at h
+  simp only [isAscii, decide_eq_true_eq]
+  omega
+
 theorem getLast?_mem {α} (l : List α) (x : α) (h : l.getLast? = some x) : x ∈ l := List.mem_of_getLast? h
 
 theorem hasSuffixChar_false_of_all (c : Char) (s : Str) (h : ∀ x ∈ s, x ≠ c) : hasSuffixChar c s = false := by
@@ -110,6 +115,10 @@ theorem map_upper_chars (ns : List Nat) (h : ∀ n ∈ ns, n < 16) :
   simp only [List.mem_map] at hc
   obtain ⟨n, hn, rfl⟩ := hc
   exact nibbleCharUpper_upperHex n (h n hn)
+
+theorem runeBytes_upper (ns : List Nat) (h : ∀ n ∈ ns, n < 16) :
+    runeBytes (ns.map Hex.nibbleCharUpper) = ns.map Hex.nibbleCharUpper :=
+  runeBytes_ascii _ (fun c hc => upperHex_ascii c (map_upper_chars ns h c hc))
 
 /-- fromFift on a text ending in `<u>_` -/
 theorem fromFift_suffix (body : Str) (u : Char) :
